@@ -126,52 +126,60 @@ func driveC16(t *testing.T, out *vEmitter) {
 		}
 		origins := []origin{{"app.example.com", "", false}, {"app.example.com", "192.0.2.10:40000", false}, {"", "192.0.2.10:40000", false}, {"app.example.com", "@", false}, {"", "@", false},
 			{"app.example.com", "192.0.2.10:40000", true}, {"app.example.com", "10.9.9.9:40000", false}}
-		for _, og := range origins {
-			for _, ep := range endpoints {
-				hostHdr, remoteAddr := og.host, og.remote
-				baseReq, err := vRawRequest(vBuildRaw(ep.method, ep.target, hostHdr, nil, ""))
-				if err != nil {
-					t.Fatal(err)
-				}
-				baseReq.RemoteAddr = remoteAddr
-				if og.tls {
-					baseReq.TLS = &tls.ConnectionState{HandshakeComplete: true}
-				}
-				base := vDecision(e, e.serve(baseReq))
-				// subsets: each header alone, all together, and a few pairs
-				var subsets [][][2]string
-				for _, h := range fwdHeaders {
-					subsets = append(subsets, [][2]string{h})
-				}
-				subsets = append(subsets, fwdHeaders, [][2]string{fwdHeaders[0], fwdHeaders[2], fwdHeaders[4]}, [][2]string{fwdHeaders[1], fwdHeaders[3], fwdHeaders[5], fwdHeaders[8]})
-				for _, hs := range subsets {
-					req, err := vRawRequest(vBuildRaw(ep.method, ep.target, hostHdr, hs, ""))
-					if err != nil {
-						continue
-					}
-					req.RemoteAddr = remoteAddr
-					if og.tls {
-						req.TLS = &tls.ConnectionState{HandshakeComplete: true}
-					}
-					got := vDecision(e, e.serve(req))
-					out.Obs("pair-off", true, vL("pair", vS(c.name), vS(ep.target), vI(int64(len(hs))), vBool(got == base)))
-					out.Stat("pairs_reverse_proxy_off", 1)
-					if got != base {
-						out.Violation("forwarding/header-changes-decision", "with reverse-proxy off a forwarding header changed the proxy's decision or response",
-							map[string]interface{}{"config": c.name, "endpoint": ep.method + " " + ep.target, "headers": fmt.Sprint(hs), "without": base, "with": got, "host": hostHdr, "remote": remoteAddr})
-					}
-				}
-				if og != origins[0] {
+		// other request headers the proxy reads (the redirect an nginx auth_request setup passes along, an Accept header
+		// asking for JSON): present in BOTH requests of a pair, so that only the forwarding headers differ
+		fixedSets := [][][2]string{nil, {{"X-Auth-Request-Redirect", "/app/page?x=1"}}, {{"X-Auth-Request-Redirect", "https://x.a.example.com/deep"}, {"Accept", "application/json"}}}
+		for fxi, fixed := range fixedSets {
+			for _, og := range origins {
+				if fxi > 0 && og != origins[0] && og != origins[1] {
 					continue
 				}
-				// correspondence: the OAuth redirect URI
-				for _, hs := range subsets[:7] {
-					req, err := vRawRequest(vBuildRaw(ep.method, ep.target, "app.example.com", hs, ""))
+				for _, ep := range endpoints {
+					hostHdr, remoteAddr := og.host, og.remote
+					baseReq, err := vRawRequest(vBuildRaw(ep.method, ep.target, hostHdr, fixed, ""))
 					if err != nil {
+						t.Fatal(err)
+					}
+					baseReq.RemoteAddr = remoteAddr
+					if og.tls {
+						baseReq.TLS = &tls.ConnectionState{HandshakeComplete: true}
+					}
+					base := vDecision(e, e.serve(baseReq))
+					// subsets: each header alone, all together, and a few pairs
+					var subsets [][][2]string
+					for _, h := range fwdHeaders {
+						subsets = append(subsets, [][2]string{h})
+					}
+					subsets = append(subsets, fwdHeaders, [][2]string{fwdHeaders[0], fwdHeaders[2], fwdHeaders[4]}, [][2]string{fwdHeaders[1], fwdHeaders[3], fwdHeaders[5], fwdHeaders[8]})
+					for _, hs := range subsets {
+						req, err := vRawRequest(vBuildRaw(ep.method, ep.target, hostHdr, append(append([][2]string(nil), fixed...), hs...), ""))
+						if err != nil {
+							continue
+						}
+						req.RemoteAddr = remoteAddr
+						if og.tls {
+							req.TLS = &tls.ConnectionState{HandshakeComplete: true}
+						}
+						got := vDecision(e, e.serve(req))
+						out.Obs("pair-off", true, vL("pair", vS(c.name), vS(ep.target), vI(int64(len(hs))), vBool(got == base)))
+						out.Stat("pairs_reverse_proxy_off", 1)
+						if got != base {
+							out.Violation("forwarding/header-changes-decision", "with reverse-proxy off a forwarding header changed the proxy's decision or response",
+								map[string]interface{}{"config": c.name, "endpoint": ep.method + " " + ep.target, "headers": fmt.Sprint(hs), "other_headers_in_both_requests": fmt.Sprint(fixed), "without": base, "with": got, "host": hostHdr, "remote": remoteAddr})
+						}
+					}
+					if og != origins[0] || fxi > 0 {
 						continue
 					}
-					req = middlewareapi.AddRequestScope(req, &middlewareapi.RequestScope{ReverseProxy: false})
-					vOAuthRedirectCase(out, e, req, false)
+					// correspondence: the OAuth redirect URI
+					for _, hs := range subsets[:7] {
+						req, err := vRawRequest(vBuildRaw(ep.method, ep.target, "app.example.com", hs, ""))
+						if err != nil {
+							continue
+						}
+						req = middlewareapi.AddRequestScope(req, &middlewareapi.RequestScope{ReverseProxy: false})
+						vOAuthRedirectCase(out, e, req, false)
+					}
 				}
 			}
 		}
